@@ -1236,7 +1236,7 @@ class RunningOrderReplace(RunningOrder):
         """
         print("REPLACE RO:")
         for tag in self.base_tag:
-            if tag.text.strip():
+            if tag.text and tag.text.strip():
                 print("", tag.tag + ":", tag.text.strip())
 
 
@@ -1732,7 +1732,7 @@ class EAItemInsert(ElementAction):
         Print an outline of the key file contents
         """
         print("IN STORY:", self.story.id)
-        print("  BEFORE ITEM:", self.story.id)
+        print("  BEFORE ITEM:", self.item.id)
         for item in self.items:
             print("    INSERT ITEM:", item.id)
 
